@@ -433,9 +433,12 @@ structure Result (σ : Type) where
 
 /-- `serveHTTP`, re-entered through `handleError` on `errInternalRedir`.
     `H pat r s` is the effect on the server state of the handler registered for `pat`
-    (anything: config mutation, process stop, a module's own state).  `fuel` bounds the number of
+    (anything: config mutation, process stop, a module's own state).  `mux method path` is the
+    routing decision of the `http.ServeMux` the handler wraps — a parameter, so that the theorems
+    hold for every route table a module can register (methods, wildcards, host patterns …); the
+    driver instantiates it with `muxOf` below.  `fuel` bounds the number of
     passes; the Go code has no bound (it recurses as long as `/id/` targets lead to `/id/`). -/
-def serve {σ : Type} (H : Bytes → Req → σ → σ) (h : Handler) (idx : Index) :
+def serve {σ : Type} (H : Bytes → Req → σ → σ) (mux : Bytes → Bytes → Route) (h : Handler) (idx : Index) :
     Nat → Req → σ → List Dispatch → Nat → Result σ
   | 0, r, s, tr, c => ⟨tr, .fuel, r.path, c, s⟩
   | fuel + 1, r, s, tr, c =>
@@ -443,7 +446,7 @@ def serve {σ : Type} (H : Bytes → Req → σ → σ) (h : Handler) (idx : Ind
     | .panic => ⟨tr, .panic, r.path, c, s⟩
     | .refuse why => ⟨tr, .refused why, r.path, c, s⟩
     | .pass c' =>
-      match route h.pats r.path with
+      match mux r.method r.path with
       | .redirect => ⟨tr, .muxRedirect, r.path, max c c', s⟩
       | .notFound => ⟨tr, .muxNotFound, r.path, max c c', s⟩
       | .handler pat =>
@@ -451,12 +454,21 @@ def serve {σ : Type} (H : Bytes → Req → σ → σ) (h : Handler) (idx : Ind
           match handleConfigID idx r.path with
           | .badRequest => ⟨tr ++ [⟨pat, r.path⟩], .idBadRequest, r.path, max c c', s⟩
           | .unknownId => ⟨tr ++ [⟨pat, r.path⟩], .idUnknown, r.path, max c c', s⟩
-          | .redirect np => serve H h idx fuel (r.withPath np) s (tr ++ [⟨pat, r.path⟩]) (max c c')
+          | .redirect np => serve H mux h idx fuel (r.withPath np) s (tr ++ [⟨pat, r.path⟩]) (max c c')
         else ⟨tr ++ [⟨pat, r.path⟩], .handled pat, r.path, max c c', H pat r s⟩
 
 /-- external entry point `adminHandler.ServeHTTP` -/
-def serveHTTP {σ : Type} (H : Bytes → Req → σ → σ) (h : Handler) (idx : Index) (fuel : Nat)
+def serveHTTP {σ : Type} (H : Bytes → Req → σ → σ) (mux : Bytes → Bytes → Route) (h : Handler)
+    (idx : Index) (fuel : Nat) (r : Req) (s : σ) : Result σ :=
+  serve H mux h idx fuel r s [] 0
+
+/-- the mux `newAdminHandler` fills: Go's ServeMux on the registered "/exact" and "/subtree/"
+    patterns (the method plays no role for these pattern forms) -/
+def muxOf (h : Handler) : Bytes → Bytes → Route := fun _ p => route h.pats p
+
+/-- the handler as `newAdminHandler` builds it: gate + its own mux -/
+def serveReal {σ : Type} (H : Bytes → Req → σ → σ) (h : Handler) (idx : Index) (fuel : Nat)
     (r : Req) (s : σ) : Result σ :=
-  serve H h idx fuel r s [] 0
+  serveHTTP H (muxOf h) h idx fuel r s
 
 end CaddyModel.C13
